@@ -737,6 +737,82 @@ theorem readResponse_wire_framed (meth : Bytes) (m : Msg) (h : WFRes meth m)
       congr 1
       · cases m; simp_all
 
+/-! answers to HEAD -/
+
+/-- An answer to HEAD without `Transfer-Encoding`: any announced length (or none), never a body. -/
+def WFResHead (m : Msg) : Prop :=
+  m.isReq = false ∧ m.method = [] ∧ m.url = [] ∧ m.host = [] ∧
+  m.major < 10 ∧ m.minor < 10 ∧ statusOK m = true ∧
+  m.hdr.all ValidKV = true ∧ has (e2e m) pragmaKey = false ∧
+  m.te = [] ∧ -1 ≤ m.cl ∧ m.cl < 2 ^ 63 ∧ m.body = some [] ∧ m.trailer = none
+
+instance (m : Msg) : Decidable (WFResHead m) := by unfold WFResHead; infer_instance
+
+def resParsedHead (m : Msg) : Parsed :=
+  ⟨{ m with hdr := resHdr m }, shouldClose m.major m.minor (headOf m), none⟩
+
+/-- The head of an answer to HEAD is read as a complete message; what follows it is untouched. -/
+theorem readResponse_head (m : Msg) (h : WFResHead m) (rest : Bytes) :
+    readResponse headTok (headSection m ++ rest) = .complete (resParsedHead m) rest := by
+  obtain ⟨hreq, hmeth, hurl, hhost, hmaj, hmin, hst, hhdr, hpr, hte, hclm, hcl63, hbody, htrn⟩ := h
+  have hexcl : ∀ k, (exclOf m).contains k = true → has (e2e m) k = false := has_e2e_excl m
+  have hex : exclOf m = [clKey, teKey] := by simp [exclOf, hreq]
+  have he_cl := hexcl clKey (by rw [hex]; decide)
+  have he_te := hexcl teKey (by rw [hex]; decide)
+  have hhostF : hostF m = [] := by simp [hostF, hreq]
+  have hteF : teF m = [] := by simp [teF, hte]
+  have hch : isChunked m.te = false := by simp [hte, isChunked]
+  have kn := keys_ne
+  have cn := conn_ne
+  have hstart : startLine m = protoBytes m.major m.minor ++ [32] ++ m.status := by simp [startLine, hreq]
+  have hwire : headSection m ++ rest = protoBytes m.major m.minor ++ [32] ++ m.status ++ crlf
+      ++ fields (headOf m) ++ crlf ++ rest := by
+    simp [headSection_eq, hstart]
+  by_cases hcl : m.cl = -1
+  · have hclF : clF m = [] := by simp [clF, hch, hcl]
+    have hhead : headOf m = e2e m := by simp [headOf, hteF, hclF, hhostF]
+    have hvalid : ∀ kv ∈ headOf m, ValidKV kv = true := by rw [hhead]; exact valid_e2e m hhdr
+    unfold readResponse
+    rw [hwire, readResponseHead_serialized headTok m (headOf m) _ hmaj hmin hst hvalid,
+      fixPragma_id _ (by rw [hhead]; exact hpr)]
+    rw [readTransfer_res_head_none m.code m.major m.minor _ _
+      (has_connDropped _ _ _ _ cn.1 (by rw [hhead]; exact he_te))
+      (has_connDropped _ _ _ _ cn.2.1 (by rw [hhead]; exact he_cl))]
+    simp only [liftE, finishBody, readBody_none]
+    simp only [resParsedHead, resHdr, resSkeleton, hclF, connDropped, hhead]
+    congr 1
+    · cases m; simp_all
+  · obtain ⟨n, hn⟩ : ∃ n : Nat, m.cl = n := ⟨m.cl.toNat, by omega⟩
+    have hcl0 : 0 ≤ m.cl := by omega
+    have hclF : clF m = [(clKey, natDigits n)] := by simp [clF, hch, hcl0, hn, itoa_ofNat]
+    have hn63 : n < 2 ^ 63 := by omega
+    have hhead : headOf m = (clKey, natDigits n) :: e2e m := by simp [headOf, hteF, hclF, hhostF]
+    have hvalid : ∀ kv ∈ headOf m, ValidKV kv = true := by
+      intro kv hkv; rw [hhead] at hkv
+      rcases List.mem_cons.mp hkv with rfl | hkv
+      · simp [ValidKV, validKV_host_te_cl.2.2, valueOK_natDigits]
+      · exact valid_e2e m hhdr kv hkv
+    have hpragma : has (headOf m) pragmaKey = false := by
+      rw [hhead, has_cons, hpr]; simp [kn.2.2.2.2.2.2.2.2.2.2.2.2.2.1]
+    have hte' : has (headOf m) teKey = false := by
+      rw [hhead, has_cons, he_te]; simp [kn.2.2.2.2.2.2.2.2.2.2.2.1]
+    have hclv : vals (headOf m) clKey = [natDigits n] := by
+      rw [hhead, vals_cons, vals_eq_nil_of_has _ _ he_cl]; simp
+    have hnd : (trimLWS (natDigits n)).isEmpty = false := by
+      rw [trimLWS_digits _ (natDigits_spec n).1]
+      cases hq : natDigits n with
+      | nil => exact absurd hq (natDigits_ne_nil n)
+      | cons c r => rfl
+    unfold readResponse
+    rw [hwire, readResponseHead_serialized headTok m (headOf m) _ hmaj hmin hst hvalid, fixPragma_id _ hpragma]
+    rw [readTransfer_res_head_cl m.code m.major m.minor _ _ (natDigits n) n
+      (has_connDropped _ _ _ _ cn.1 hte')
+      (by rw [vals_connDropped _ _ _ _ cn.2.1]; exact hclv) hnd (parseCL_natDigits n hn63)]
+    simp only [liftE, finishBody, readBody_none]
+    simp only [resParsedHead, resHdr, resSkeleton, hclF, connDropped, hhead]
+    congr 1
+    · cases m; simp_all
+
 /-- The wire form `wire m` itself (one chunk when chunked). -/
 theorem readResponse_wire (meth : Bytes) (m : Msg) (h : WFRes meth m) (rest : Bytes)
     (hrest : lengthDelimited m = false → rest = []) :
